@@ -337,9 +337,13 @@ impl<'a, F: IVP> SolOut for DefaultSolOut<'a, F> {
                                 self.next_idx = k;
                             }
 
-                            // Add the terminal event point to the output
-                            self.t.push(event_t);
-                            self.y.push(event_y);
+                            // Add the terminal event point to the output. Without t_eval an event
+                            // located at the start of the step coincides with the previous sample,
+                            // which then already is that point: do not repeat the time.
+                            if self.t_eval.is_some() || self.t.last() != Some(&event_t) {
+                                self.t.push(event_t);
+                                self.y.push(event_y);
+                            }
                             
                             // Update prev_event before returning
                             self.prev_event.copy_from_slice(&self.g_curr_buf);
